@@ -16,10 +16,14 @@ use std::sync::{Arc, Barrier, Mutex};
 #[derive(Clone, Copy, Debug, Serialize, Deserialize, PartialEq, Eq, Hash)]
 pub enum TOp {
     Open,
+    /// keep trying to open for up to 25 ms (lands inside another thread's close)
+    OpenRetry,
     Close,
     Destroy,
     /// write a few keys through the owned handle (no-op without a handle)
     Write,
+    /// write enough to leave flushes/compactions in flight, then close immediately
+    WriteClose,
     Nop,
 }
 
@@ -63,8 +67,28 @@ pub struct OStats {
     pub classes: Vec<&'static str>,
 }
 
+/// (stamp, thread id, is a database worker thread) of every mutating filesystem call
+type Activity = Arc<Mutex<Vec<(u64, std::thread::ThreadId, bool)>>>;
+
 pub fn run_case(case: &OwnerCase) -> Result<OStats, String> {
-    let fs: Arc<dyn FileSystem> = Arc::new(TmpFileSystem::new(None));
+    let tmp: Arc<dyn FileSystem> = Arc::new(TmpFileSystem::new(None));
+    let watch = Arc::new(crate::faultfs::FaultFs::new(tmp));
+    let clock = Arc::new(std::sync::atomic::AtomicU64::new(1));
+    let activity: Activity = Arc::new(Mutex::new(vec![]));
+    {
+        let (clock, activity) = (clock.clone(), activity.clone());
+        *watch.ctl.observer.lock().unwrap() = Some(Arc::new(move |kind: &'static str| {
+            if matches!(kind, "create" | "write" | "append" | "rename" | "remove") {
+                let t = std::thread::current();
+                let worker = t.name().map_or(false, |n| n.starts_with("raindb-"));
+                let s = clock.fetch_add(1, std::sync::atomic::Ordering::SeqCst);
+                activity.lock().unwrap().push((s, t.id(), worker));
+            }
+        }));
+    }
+    let fs: Arc<dyn FileSystem> = watch.clone();
+    // (start stamp, end stamp) of every successful open
+    let opens_ok: Arc<Mutex<Vec<(u64, u64, usize, usize)>>> = Arc::new(Mutex::new(vec![]));
     let n = case.threads;
     let rounds = case.rounds.len();
     let barrier = Arc::new(Barrier::new(n));
@@ -73,7 +97,8 @@ pub fn run_case(case: &OwnerCase) -> Result<OStats, String> {
     let errors: Arc<Mutex<Vec<String>>> = Arc::new(Mutex::new(vec![]));
     let mut handles = vec![];
     for t in 0..n {
-        let (fs, barrier, log, model, errors, case) = (fs.clone(), barrier.clone(), log.clone(), model.clone(), errors.clone(), case.clone());
+        let (fs, barrier, log, model, errors, case, clock, opens_ok) =
+            (fs.clone(), barrier.clone(), log.clone(), model.clone(), errors.clone(), case.clone(), clock.clone(), opens_ok.clone());
         handles.push(std::thread::Builder::new().name(format!("owner-{t}")).spawn(move || {
             let mut db: Option<DB> = None;
             let mut wrote = 0u64;
@@ -83,7 +108,21 @@ pub fn run_case(case: &OwnerCase) -> Result<OStats, String> {
                 let op = case.rounds[r].get(t).copied().unwrap_or(TOp::Nop);
                 barrier.wait();
                 let res = match op {
-                    TOp::Open => match DB::open(opts(&fs, case.small_memtable)) {
+                    TOp::Open | TOp::OpenRetry => match {
+                        let t0 = std::time::Instant::now();
+                        let mut s0 = clock.fetch_add(1, std::sync::atomic::Ordering::SeqCst);
+                        let mut r_ = DB::open(opts(&fs, case.small_memtable));
+                        while r_.is_err() && op == TOp::OpenRetry && t0.elapsed() < std::time::Duration::from_millis(25) {
+                            std::thread::yield_now();
+                            s0 = clock.fetch_add(1, std::sync::atomic::Ordering::SeqCst);
+                            r_ = DB::open(opts(&fs, case.small_memtable));
+                        }
+                        let s1 = clock.fetch_add(1, std::sync::atomic::Ordering::SeqCst);
+                        if r_.is_ok() {
+                            opens_ok.lock().unwrap().push((s0, s1, r, t));
+                        }
+                        r_
+                    } {
                         Ok(d) => {
                             if db.is_some() {
                                 errors.lock().unwrap().push(format!("round {r}: thread {t} opened the database a second time while holding a handle to it"));
@@ -120,6 +159,25 @@ pub fn run_case(case: &OwnerCase) -> Result<OStats, String> {
                                 }
                             }
                             Res::Wrote
+                        } else {
+                            Res::None
+                        }
+                    }
+                    TOp::WriteClose => {
+                        if let Some(d) = db.take() {
+                            for i in 0..40u64 {
+                                wrote += 1;
+                                let k = format!("t{t}-{wrote:05}").into_bytes();
+                                let v = format!("value-{t}-{wrote}-{}", "y".repeat(60 + (i % 7) as usize * 10)).into_bytes();
+                                match d.put(WriteOptions::default(), k.clone(), v.clone()) {
+                                    Ok(()) => {
+                                        model.lock().unwrap().insert(k, v);
+                                    }
+                                    Err(e) => errors.lock().unwrap().push(format!("round {r}: the owner's put failed: {e:?}")),
+                                }
+                            }
+                            drop(d);
+                            Res::Closed
                         } else {
                             Res::None
                         }
@@ -164,6 +222,26 @@ pub fn run_case(case: &OwnerCase) -> Result<OStats, String> {
         }
     }
     let first_error = errors.lock().unwrap().first().cloned();
+    // an instance that lost ownership must be silent: once an open succeeded, no worker thread of
+    // an earlier instance may still be modifying the directory
+    {
+        let act = activity.lock().unwrap();
+        let mut first_seen: BTreeMap<String, u64> = BTreeMap::new();
+        for (s, id, worker) in act.iter() {
+            if *worker {
+                first_seen.entry(format!("{id:?}")).or_insert(*s);
+            }
+        }
+        for (s0, s1, r, t) in opens_ok.lock().unwrap().iter() {
+            for (s, id, worker) in act.iter() {
+                if *worker && *s > *s1 && first_seen[&format!("{id:?}")] < *s0 {
+                    return Err(format!(
+                        "round {r}: thread {t} opened the database while the background thread of the previous instance was still writing to the directory (that instance had not finished closing)"
+                    ));
+                }
+            }
+        }
+    }
     // judge the log
     let log = log.lock().unwrap().clone();
     let mut stats = OStats::default();
@@ -279,9 +357,11 @@ fn strategy() -> BoxedStrategy<OwnerCase> {
             // judge ignores data checks for rounds where both succeed
             let op = prop_oneof![
                 6 => Just(TOp::Open),
+                2 => Just(TOp::OpenRetry),
                 3 => Just(TOp::Close),
                 2 => Just(TOp::Destroy),
                 3 => Just(TOp::Write),
+                2 => Just(TOp::WriteClose),
                 2 => Just(TOp::Nop),
             ];
             (prop::collection::vec(prop::collection::vec(op, n), 2..9), Just(n), any::<bool>())
@@ -308,7 +388,7 @@ fn guarded(case: &OwnerCase) -> Outcome {
 
 pub fn worker(ctx: &WorkerCtx) -> WorkerResult {
     let cases = match ctx.tier {
-        Tier::Quick => 800u64,
+        Tier::Quick => 3000u64,
         Tier::Thorough => 20_000,
     };
     let cases = std::env::var("VERIF_CASES").ok().and_then(|s| s.parse().ok()).unwrap_or(cases);
